@@ -267,15 +267,17 @@ var specs = map[string]*CheckSpec{
 			{Name: "c05.basic", Count: 8000},
 			{Name: "c05.signals", Count: 4000},
 			{Name: "c05.misbehave", Count: 3000},
+			{Name: "c05.v1", Count: 2500},
 		},
 		Thorough: []Batch{
 			{Name: "c05.basic", Count: 400000},
 			{Name: "c05.signals", Count: 200000},
 			{Name: "c05.misbehave", Count: 100000},
+			{Name: "c05.v1", Count: 80000},
 		},
 		Rule: "each run = one seeded session with a generated plugin schema, generated inputs, 1-4 caller goroutines; every Execute result is compared with CallStep on an independent in-process copy; distinct = distinct schedule signature x transport configuration; non-trivial = at least one preemption",
 		Real: atpReal, Stub: commonStub,
-		Assume: []string{"the reference call sees the CBOR-normalised input (the documented identification)", "ATP v1 framing is exercised by the scripted-server checks (C08), not here"},
+		Assume: []string{"the reference call sees the CBOR-normalised input (the documented identification)", "legacy v1 framing: the SDK has no v1 server, so batch c05.v1 plays a stub v1 plugin whose answers are the in-process CallStep results of a reference copy (v1 has no error message: only calls whose reference succeeds are in those transcripts)"},
 	},
 }
 
